@@ -7,10 +7,10 @@ T={
  "C01":("differential vs denotational language model (R1); two bounded-exhaustive scopes (small ASTs x flags; nested quantifiers over macro atoms) + seeded random ASTs with shrinking (+ structure-aware libFuzzer target with R1 as in-target oracle in thorough)","4 C01",
         "is_match is compared with an order-independent language-membership model on every AST of size <=4 (quick) / <=5 (thorough) over a 3-letter alphabet x all short inputs x all subsets of i,m,s, and on seeded random structured patterns; a mismatch is shrunk and reported unless it is the listed ForceProgress / fixed-loop-backref finding",
         "trusts the R1 model (harness/src/oracle_lang.rs) and the R3/R4 character data; explores patterns <= ~20 nodes and inputs <= 8 characters"),
- "C02":("differential vs ordered-choice reference matcher (R2) and R1 match relation; seeded random ASTs with shrinking","4 C02",
+ "C02":("differential vs ordered-choice reference matcher (R2) and R1 match relation; two bounded-exhaustive scopes + seeded random ASTs with shrinking (+ structure-aware libFuzzer target with R2 as in-target oracle in thorough)","4 C02",
         "the span list observed through analyze/replace_all/tokenize is compared with a Perl-style backtracking reference where mainstream engines agree, and with leftmost/membership clauses from R1 everywhere else",
         "trusts R2 (harness/src/oracle_bt.rs) as the definition of ordered choice; patterns back-referencing a group inside a loop are skipped"),
- "C03":("differential vs R2 last-participation captures + structural invariants of the analyze tree; seeded random ASTs with shrinking","4 C03",
+ "C03":("differential vs R2 last-participation captures + structural invariants of the analyze tree; two bounded-exhaustive scopes + seeded random ASTs with shrinking (+ structure-aware libFuzzer target with R2 as in-target oracle in thorough)","4 C03",
         "group texts from replace_all ($N with non-digit delimiters) and analyze (Group tree) are compared with the reference's captures on matches whose spans agree with R2, and checked structurally on every match",
         "two listed known findings mask: empty Group for a non-participating group under a quantifier; wrong text for a group inside a loop"),
  "C04":("cross-API metamorphic relations; two bounded-exhaustive scopes + seeded random ASTs in both dialects with shrinking (+ libFuzzer target with the relations as in-target oracle in thorough)","4 C04",
